@@ -32,7 +32,7 @@ from ..gen import flowjson as FJ
 from ..gen import sheets as G
 
 MANIFEST = dict(
-    text="Proof: Lean theorem strip_renaming_invariant (for every flow, every injective renaming of identifiers, both id modes, and every header-order / CSV-export function of uuid-free data, the stripped sheet of the renamed flow equals the stripped sheet of the flow) over a line-by-line model of FlowContainer.to_rows (DFS with visited/completed sets, reverse child order, go_to rows with fresh ids, temp-id remapping) that is polymorphic in the identifier type; stripped_rows_U_free (the output type has no identifier component), toRows_temp_ids_nodup (DFS invariant), numbered_ids (ids are 1..n in row order), named_ids_nodup (unique, never 'start'), toRows_fuel_sufficient / remap_only_key_error (the model's fuels are never exhausted), needs_injective (negative witness, replayed on the real exporter), tables_agree (excluded headers = headers of the uuid-carrying row fields). Tied to the code by a differential run model-vs-real to_rows on generated and compiled flows, and the statement itself is evaluated on the REAL flows_to_sheets --strip_uuids: byte-identical CSV files under random / order-reversing / non-UUID / swapping / permuting bijective renamings of all uuids, no uuid in any cell.",
+    text="Proof: Lean theorem strip_renaming_invariant (for every flow, every injective renaming of identifiers, both id modes, and every header-order / CSV-export function of uuid-free data, the stripped sheet of the renamed flow equals the stripped sheet of the flow) over a line-by-line model of FlowContainer.to_rows (DFS with visited/completed sets, reverse child order, go_to rows with fresh ids, temp-id remapping) that is polymorphic in the identifier type; stripped_rows_U_free (the output type has no identifier component), toRows_temp_ids_nodup (DFS invariant), numbered_ids (ids are 1..n in row order), named_ids_nodup (unique, never 'start'), toRows_fuel_sufficient / remap_only_key_error (the model's fuels are never exhausted), needs_injective (negative witness, replayed on the real exporter), tables_agree (excluded headers = headers of the uuid-carrying row fields). Tied to the code by a differential run model-vs-real to_rows on generated and compiled flows, and the statement itself is evaluated on the REAL flows_to_sheets --strip_uuids: byte-identical CSV files under random / order-reversing / non-UUID / swapping / permuting / case-respelling (capitals, mixed case) bijective renamings of all uuids, on files with and without _ui positions, no uuid in any cell.",
     ref="§5 C17",
     note="Trusts: Lean kernel (axioms audited each run), the differential harness and Driver JSON codec; action/router content of a row and edge labels are opaque uuid-free strings supplied by the harness from the real objects (their uuid-freeness is checked by the cell scan, not proved); RowParser.unparse_row, networkx.topological_sort and tablib CSV export are uninterpreted functions of the uuid-free rows. WhatsApp template ids are not in the statement's renaming list and are held fixed; since fix F-C17-a (/repo) --strip_uuids excludes the wa_template.uuid column as well.",
     technique="Lean 4 proof (equivariance of the exporter DFS under injective renamings; parametricity of the stripped output) + metamorphic oracle on the real CLI path + model/code correspondence",
@@ -142,6 +142,23 @@ def plain_names(doc, ids, style, rng):
 
 
 RENAMING_KINDS = ["fresh", "reverse_order", "plain_n", "plain_zz", "swap_two_nodes", "permute", "reverse_fresh", "swap_two_any"]
+# other legal SPELLINGS of UUIDs (RFC 4122: hex digits are case-insensitive on input; .NET / PowerShell / Excel
+# tooling writes GUIDs in capitals): a renaming is any injective map on identifier strings, so a file whose
+# uuids are written in upper / mixed case is a renaming of its lower-case twin.
+SPELLING_KINDS = ["upper_same", "fresh_upper", "mixed_same", "fresh_mixed"]
+ALL_KINDS = RENAMING_KINDS + SPELLING_KINDS
+
+
+def respell(u: str, how: str, rng: random.Random) -> str:
+    """the same identifier in another letter case: 'upper' = all capitals; 'mixed' = every letter independently
+    upper / lower with at least one capital (when there is a letter at all)"""
+    if how == "upper":
+        return u.upper()
+    letters = [i for i, ch in enumerate(u) if ch.isalpha()]
+    if not letters:
+        return u
+    force = rng.choice(letters)
+    return "".join(ch.upper() if (i == force or (ch.isalpha() and rng.random() < 0.5)) else ch.lower() for i, ch in enumerate(u))
 
 
 def make_renaming(kind: str, doc, ids: list[str], rng: random.Random) -> dict:
@@ -179,6 +196,13 @@ def make_renaming(kind: str, doc, ids: list[str], rng: random.Random) -> dict:
         p = ids[:]
         rng.shuffle(p)
         return dict(zip(ids, p))
+    if kind in ("upper_same", "mixed_same"):      # the SAME uuids, re-spelled in capitals / mixed case
+        m = {u: respell(u, "upper" if kind == "upper_same" else "mixed", rng) for u in ids}
+        if len(set(m.values())) == n:
+            return m
+        kind = "fresh_upper" if kind == "upper_same" else "fresh_mixed"   # ids that differ only in case: re-spelling would merge them
+    if kind in ("fresh_upper", "fresh_mixed"):    # fresh uuid4s written in capitals / mixed case
+        return {u: respell(fresh_uuid(rng), "upper" if kind == "fresh_upper" else "mixed", rng) for u in ids}
     raise ValueError(kind)
 
 
@@ -534,7 +558,21 @@ def compiled_doc(rng):
 def gen_doc(rng, maxnodes):
     """(source, flow file).  foreign: export-schema flows (trees, joins, cycles, self loops, every node kind,
     special characters, optional _ui positions and localization keyed by uuids, sometimes two flows in one
-    file); compiled: output of the real compiler on a random core sheet."""
+    file); compiled: output of the real compiler on a random core sheet.  Either kind is sometimes written
+    with its uuids in capitals / mixed case (the file's own spelling; the renamings then lead back to
+    lower case as well)."""
+    src, doc = _gen_doc(rng, maxnodes)
+    if doc is not None and rng.random() < 0.15:
+        ids = collect_uuids(doc)
+        how = rng.choice(["upper_same", "mixed_same"])
+        sub = random.Random(rng.randrange(1 << 60))    # own stream: compiled files carry uuid4()s, the number of letters must not steer `rng`
+        m = make_renaming(how, doc, ids, sub)
+        if is_bijection(m, ids):
+            doc = apply_renaming(doc, m)
+    return src, doc
+
+
+def _gen_doc(rng, maxnodes):
     r = rng.random()
     if r < 0.62:
         doc = FJ.gen_container(rng, rng.randint(1, maxnodes), special_text=rng.random() < 0.7, ui=rng.random() < 0.4)
@@ -580,6 +618,9 @@ def shape_stats(doc, bump):
         bump("flows_with_router", any(n.get("router") for n in f["nodes"]))
         bump("flows_with_multi_action_node", any(len(n.get("actions", [])) > 1 for n in f["nodes"]))
         bump("flows_with_ui", bool(f.get("_ui")))
+        capitals = any(ch.isupper() for n in f["nodes"] for ch in n["uuid"])
+        bump("flows_written_with_capital_uuids", capitals)
+        bump("flows_with_ui_written_with_capital_uuids", capitals and bool(f.get("_ui")))
         bump("flows_with_unreachable_node", not FJ.reachable_all(f))
 
 
@@ -610,6 +651,8 @@ def worker(args):
             for t in tie_requests(doc):
                 tie_items.append((doc, t))
         kinds = RENAMING_KINDS if kinds_per_doc >= len(RENAMING_KINDS) else ["fresh"] + rng.sample(RENAMING_KINDS[1:], kinds_per_doc - 1)
+        # plus one (quick) / two (thorough) of the four re-spellings per file; all four in the corpus and in the search
+        kinds = kinds + rng.sample(SPELLING_KINDS, max(1, min(len(SPELLING_KINDS), kinds_per_doc - len(RENAMING_KINDS))))
         sub = rng.randrange(1 << 60)
         with LogCapture():
             r = check_doc(doc, kinds, random.Random(sub), workdir)
@@ -701,10 +744,10 @@ def search_worker(args):
             continue
         sub = rng.randrange(1 << 60)
         with LogCapture():
-            r = check_doc(doc, RENAMING_KINDS, random.Random(sub), workdir)
+            r = check_doc(doc, ALL_KINDS, random.Random(sub), workdir)
         cnt += 1
         if r["fail"]:
-            bad.append({"doc": doc, "kinds": RENAMING_KINDS, "subseed": sub, "fail": r["fail"], "src": src})
+            bad.append({"doc": doc, "kinds": ALL_KINDS, "subseed": sub, "fail": r["fail"], "src": src})
     return {"bad": bad[:4], "n": cnt}
 
 
@@ -812,6 +855,35 @@ def known_streams(ck, workdir):
             ck.violation(beyond["what"], {"document": beyond["document"], "renaming_kinds": kinds, "subseed": 2, "detail": beyond["detail"], "stream": "F-C17-b document (failure beyond the known pattern)"})
 
 
+def spelling_corpus(ck, workdir):
+    """Small deterministic corpus run first: flows WITH `_ui` node positions (and localization keyed by uuids),
+    each as written (lower-case uuid4s) and re-written in capitals / mixed case, under every re-spelling of
+    the uuids plus a fresh lower-case renaming."""
+    kinds = ["fresh"] + SPELLING_KINDS
+    for i, nn in enumerate([1, 2, 3, 4, 6, 8]):
+        doc = FJ.gen_container(random.Random(1700 + i), nn, special_text=False, ui=True)
+        for f in doc["flows"]:
+            loc = {a["uuid"]: {"text": ["bonjour"]} for n in f["nodes"] for a in n.get("actions", []) if a["type"] == "send_msg"}
+            if loc:
+                f["localization"] = {"fra": loc}
+        for base in ("lower", "upper_same", "mixed_same"):
+            d = doc
+            if base != "lower":
+                ids = collect_uuids(doc)
+                d = apply_renaming(doc, make_renaming(base, doc, ids, random.Random(1800 + i)))
+            sub = 1900 + i
+            r = check_doc(d, kinds, random.Random(sub), workdir)
+            if r.get("export_error"):
+                ck.count("spelling_corpus.exporter_rejects")
+                continue
+            ck.count("spelling_corpus.files")
+            ck.count("spelling_corpus.files_written_in_" + base.split("_")[0] + "_case")
+            ck.count("spelling_corpus.exports", r["exports"])
+            if r["fail"]:
+                report_bad(ck, {"doc": d, "kinds": kinds, "subseed": sub, "fail": r["fail"], "src": "spelling corpus (flows with _ui positions; uuids in lower / upper / mixed case)"}, workdir)
+                return
+
+
 def witness_replay(ck, workdir):
     """Props/C17.lean needs_injective on the real code: merging the two nodes of a → b (a NON-injective renaming)
     turns the edge into a self loop, and the real sheet gets a go_to row as well."""
@@ -845,7 +917,9 @@ def run(ck: core.Check):
         "the sheet vocabulary covers, texts with | ; \\ , quotes, newlines, non-ASCII, optional _ui and localization keyed by uuids, sometimes "
         "two flows per file) and outputs of the real compiler on random core sheets; each exported by the real flows_to_sheets --strip_uuids "
         "(csv; named and --numbered) under the identity and under bijective renamings of all its uuids: fresh random, order-reversing permutation, "
-        "order-reversing fresh, non-UUID names n<k> / zz-<k>, swap of two nodes, swap of any two, random permutation; "
+        "order-reversing fresh, non-UUID names n<k> / zz-<k>, swap of two nodes, swap of any two, random permutation, and re-spellings in other "
+        "legal letter case (the same uuids in capitals / mixed case, fresh uuids in capitals / mixed case; 15% of the files are themselves written "
+        "with capital / mixed-case uuids), preceded by a small deterministic corpus of flows with _ui positions in the three spellings; "
         "a case = one exportable flow file; distinct = distinct JSON"
     )
     ck.assumptions = [
@@ -866,11 +940,12 @@ def run(ck: core.Check):
         with LogCapture():
             known_streams(ck, workdir)
             witness_replay(ck, workdir)
+            spelling_corpus(ck, workdir)
         n_total = 640 if quick else 6400
         maxnodes = 9 if quick else 16
         nshards = par.NPROC * (1 if quick else 3)
         tie_docs = []
-        jobs = [(ck.rng.randrange(1 << 60), n_total // nshards, maxnodes, len(RENAMING_KINDS), i < (8 if quick else 16), workdir) for i in range(nshards)]
+        jobs = [(ck.rng.randrange(1 << 60), n_total // nshards, maxnodes, len(RENAMING_KINDS) + (1 if quick else 2), i < (8 if quick else 16), workdir) for i in range(nshards)]
         for r in par.pmap(worker, jobs):
             for k, v in r["stats"].items():
                 ck.count(k, int(v))
@@ -893,10 +968,10 @@ def run(ck: core.Check):
             ck.search_ran = True
             for d in [d for d in tie_docs if d][:10]:
                 with LogCapture():
-                    r = check_doc(d, RENAMING_KINDS, random.Random(1), workdir)
+                    r = check_doc(d, ALL_KINDS, random.Random(1), workdir)
                 ck.count("search.disagreeing_inputs")
                 if r["fail"]:
-                    report_bad(ck, {"doc": d, "kinds": RENAMING_KINDS, "subseed": 1, "fail": r["fail"], "src": "tie disagreement"}, workdir)
+                    report_bad(ck, {"doc": d, "kinds": ALL_KINDS, "subseed": 1, "fail": r["fail"], "src": "tie disagreement"}, workdir)
             if quick and not ck.violations:
                 jobs = [(ck.rng.randrange(1 << 60), 40, 14, len(RENAMING_KINDS), False, workdir) for _ in range(par.NPROC)]
                 for r in par.pmap(search_worker, jobs):
@@ -904,7 +979,9 @@ def run(ck: core.Check):
                     for b in r["bad"][:2]:
                         report_bad(ck, b, workdir)
         need = {"generated.foreign": 20, "generated.compiled": 20, "flows_with_join": 10, "flows_with_go_to": 10, "flows_with_self_loop": 3,
-                "flows_with_multi_action_node": 10, "flows_with_ui": 10, "cli_exports": 4, "tie.compared": 200, "tie.multi_edge_rows": 20,
+                "flows_with_multi_action_node": 10, "flows_with_ui": 10, "flows_written_with_capital_uuids": 10,
+                "flows_with_ui_written_with_capital_uuids": 3, "spelling_corpus.files": 12,
+                "renaming.upper_same": 40, "renaming.fresh_upper": 40, "renaming.mixed_same": 40, "renaming.fresh_mixed": 40, "cli_exports": 4, "tie.compared": 200, "tie.multi_edge_rows": 20,
                 "tie.named_ids_with_counter": 20, "tie.real_raises.ValueError": 1, "csv_vs_to_rows": 20}
         for k, v in need.items():
             if ck.violations:
@@ -938,7 +1015,7 @@ def replay(path):
     if rp.get("document"):
         wd = tempfile.mkdtemp(prefix="c17r_")
         try:
-            r = check_doc(rp["document"], rp.get("renaming_kinds") or RENAMING_KINDS, random.Random(rp.get("subseed", 0)), wd)
+            r = check_doc(rp["document"], rp.get("renaming_kinds") or ALL_KINDS, random.Random(rp.get("subseed", 0)), wd)
             print("re-run on the current tree:", json.dumps(r["fail"], indent=1, ensure_ascii=False)[:3000] if r["fail"] else "no failure")
         finally:
             shutil.rmtree(wd, ignore_errors=True)
